@@ -211,6 +211,13 @@ func Preds() []Pred {
 		{"induced-C4-free", inducedC4Free},
 		{"alpha<=2", alphaLE2},
 		{"planar", planar},
+		// degenerate hereditary classes: the empty class, the class of the graph without vertices, graphs of at most
+		// 3 vertices (the search must stop at a level), and a class that is hereditary but NOT closed under removing
+		// edges (cographs: no induced path on 4 vertices)
+		{"no-graph", func(g *rg.G) bool { return false }},
+		{"order<=0", func(g *rg.G) bool { return g.N == 0 }},
+		{"order<=3", func(g *rg.G) bool { return g.N <= 3 }},
+		{"cograph", inducedP4Free},
 	}
 }
 
@@ -231,3 +238,27 @@ func AsPrune(p Pred, calls *int, bad *string) func(g *graph.DenseGraph) bool {
 
 // None never prunes.
 func None(g *graph.DenseGraph) bool { return false }
+
+// inducedP4Free: no induced path a-b-c-d.
+func inducedP4Free(g *rg.G) bool {
+	n := g.N
+	for b := 0; b < n; b++ {
+		for c := 0; c < n; c++ {
+			if b == c || !g.Has(b, c) {
+				continue
+			}
+			for a := 0; a < n; a++ {
+				if a == b || a == c || !g.Has(a, b) || g.Has(a, c) {
+					continue
+				}
+				for d := 0; d < n; d++ {
+					if d == a || d == b || d == c || !g.Has(c, d) || g.Has(d, b) || g.Has(d, a) {
+						continue
+					}
+					return false
+				}
+			}
+		}
+	}
+	return true
+}
